@@ -252,6 +252,18 @@ class Exc(object):
                         out |= self.gen_escapes(gt)
                         out.add('StopIteration')
                 return out
+        if isinstance(fn, ast.Attribute) and fn.attr == 'encode' and (call.args or call.keywords):
+            # text.encode(<narrow codec>): any character outside the codec raises (utf-8/16/32 encode every str that has no
+            # lone surrogate - not modelled)
+            codec = call.args[0] if call.args else next((k.value for k in call.keywords if k.arg == 'encoding'), None)
+            errs = [k.value for k in call.keywords if k.arg == 'errors'] + list(call.args[1:2])
+            lenient_ = any(isinstance(e_, ast.Constant) and e_.value in ('replace', 'ignore', 'backslashreplace',
+                                                                         'xmlcharrefreplace', 'namereplace') for e_ in errs)
+            if isinstance(codec, ast.Constant) and isinstance(codec.value, str) and not lenient_ and \
+                    codec.value.lower().replace('_', '-') not in ('utf-8', 'utf8', 'utf-16', 'utf-32', 'utf-16-le', 'utf-16-be',
+                                                                   'utf-32-le', 'utf-32-be', 'utf-7', 'unicode-escape',
+                                                                   'raw-unicode-escape'):
+                out.add('UnicodeEncodeError')
         for t in types.call_targets(call, ctx):
             if t.kind == 'func':
                 if t.func.is_generator:
